@@ -26,6 +26,23 @@ SENTINEL_TEMP_K = {0x31FF, 0x7EFF, 0x7FFF}
 
 
 # ------------------------------------------------------------------------------------------
+class _Raised:
+    """What a codec call raised (instead of a value): compares unequal to everything."""
+
+    def __init__(self, e: BaseException) -> None:
+        self.e = e
+
+    def __repr__(self) -> str:
+        return f"<raised {type(self.e).__name__}: {self.e}>"
+
+
+def _try(fn: Any, *a: Any, **kw: Any) -> Any:
+    try:
+        return fn(*a, **kw)
+    except Exception as e:  # noqa: BLE001  (a codec that raises on a grid value is reported by the caller's comparison)
+        return _Raised(e)
+
+
 def _is_num(x: Any) -> bool:
     return isinstance(x, (int, float)) and not isinstance(x, bool)
 
@@ -43,11 +60,14 @@ def sweep_temp_words(job: dict) -> dict:
         except ValueError:
             col.note("temp-word-rejected-by-decoder")
             continue
+        except Exception as e:  # noqa: BLE001
+            _v(col, "decode-raises", "hex_to_temp", {"hex": h}, f"{type(e).__name__}: {e}")
+            continue
         if d is None or d is False:
             # sentinel: must survive
-            back = hex_from_temp(d)
-            if hex_to_temp(back) is not d:
-                _v(col, "sentinel", "hex_from_temp", {"hex": h}, f"{h}->{d!r}->{back}->{hex_to_temp(back)!r}")
+            back = _try(hex_from_temp, d)
+            if isinstance(back, _Raised) or _try(hex_to_temp, back) is not d:
+                _v(col, "sentinel", "hex_from_temp", {"hex": h}, f"{h}->{d!r}->{back}")
             continue
         exp = (w if w < 0x8000 else w - 0x10000) / 100
         if d != exp:
@@ -117,8 +137,8 @@ def sweep_percent(job: dict) -> dict:
             except ValueError:
                 continue
             if d is None:
-                back = hex_from_percent(None, high_res=hr)
-                if hex_to_percent(back, high_res=hr) is not None:
+                back = _try(hex_from_percent, None, high_res=hr)
+                if isinstance(back, _Raised) or _try(hex_to_percent, back, high_res=hr) is not None:
                     _v(col, "sentinel", "hex_from_percent", {"hex": h}, f"None->{back}")
                 continue
             if d != b / div or not 0 <= d <= 1:
@@ -165,9 +185,12 @@ def sweep_double(job: dict) -> dict:
     for w in range(job["lo"], job["hi"]):
         h = f"{w:04X}"
         n += 1
-        d = hex_to_double(h, factor=factor)
+        d = _try(hex_to_double, h, factor=factor)
+        if isinstance(d, _Raised):
+            _v(col, "decode-raises", "hex_to_double", {"hex": h, "factor": factor}, f"{h}: {d!r}")
+            continue
         if d is None:
-            if hex_from_double(None, factor=factor) != "7FFF" or w != 0x7FFF:
+            if _try(hex_from_double, None, factor=factor) != "7FFF" or w != 0x7FFF:
                 _v(col, "sentinel", "hex_from_double", {"hex": h}, "None does not map to 7FFF")
             continue
         if d != w / factor:
@@ -205,30 +228,30 @@ def sweep_small(job: dict) -> dict:
     n = 0
     for h, v in (("00", False), ("C8", True), ("FF", None)):
         n += 2
-        if hex_to_bool(h) is not v:
-            _v(col, "decode-value", "hex_to_bool", {"hex": h}, f"{h}->{hex_to_bool(h)!r}")
-        if hex_from_bool(v) != h:
-            _v(col, "roundtrip-value", "hex_from_bool", {"value": v}, f"{v!r}->{hex_from_bool(v)}")
+        if _try(hex_to_bool, h) is not v:
+            _v(col, "decode-value", "hex_to_bool", {"hex": h}, f"{h}->{_try(hex_to_bool, h)!r}")
+        if _try(hex_from_bool, v) != h:
+            _v(col, "roundtrip-value", "hex_from_bool", {"value": v}, f"{v!r}->{_try(hex_from_bool, v)}")
     for lsb in (False, True):
         for b in range(256):
             h = f"{b:02X}"
             n += 2
-            flags = hex_to_flag8(h, lsb=lsb)
+            flags = _try(hex_to_flag8, h, lsb=lsb)
             exp = [(b >> i) & 1 for i in range(8)]
             if not lsb:
                 exp.reverse()
             if flags != exp:
                 _v(col, "decode-value", "hex_to_flag8", {"hex": h, "lsb": lsb}, f"{flags} != {exp}")
-            back = hex_from_flag8(flags, lsb=lsb)
+            back = _try(hex_from_flag8, exp, lsb=lsb)
             if back != h:
-                _v(col, "reencode-hex", "hex_from_flag8", {"hex": h, "lsb": lsb}, f"{h}->{flags}->{back}")
-            if hex_to_flag8(hex_from_flag8(exp, lsb=lsb), lsb=lsb) != exp:
+                _v(col, "reencode-hex", "hex_from_flag8", {"hex": h, "lsb": lsb}, f"{h}->{exp}->{back}")
+            if isinstance(back, _Raised) or _try(hex_to_flag8, back, lsb=lsb) != exp:
                 _v(col, "roundtrip-value", "hex_from_flag8", {"flags": exp, "lsb": lsb}, "flags changed")
             # a decoded value is the caller's own: what a caller does with it must not change later decodes of the same byte
             if isinstance(flags, list) and flags:
                 flags[0] ^= 1
                 flags.append(9)
-                again = hex_to_flag8(h, lsb=lsb)
+                again = _try(hex_to_flag8, h, lsb=lsb)
                 if again != exp:
                     _v(col, "decode-depends-on-earlier-result", "hex_to_flag8", {"hex": h, "lsb": lsb}, f"after the caller edited an earlier result: {again} != {exp}")
     d = date(2000, 1, 1)
@@ -260,15 +283,15 @@ def sweep_ids(job: dict) -> dict:
         h = f"{x:06X}"
         exp = f"{x >> 18:02d}:{x & 0x3FFFF:06d}"
         n += 1
-        a = hex_id_to_dev_id(h)
-        b = c_from(h)
+        a = _try(hex_id_to_dev_id, h)
+        b = _try(c_from, h)
         if a != exp or b != exp:
             bad += 1
             if bad < 20:
                 _v(col, "id-from-hex", "hex_id_to_dev_id" if a != exp else "Address.convert_from_hex", {"hex": h},
                    f"{h}->{a}/{b}, expected {exp}")
-        c = dev_id_to_hex_id(exp)
-        d = c_to(exp)
+        c = _try(dev_id_to_hex_id, exp)
+        d = _try(c_to, exp)
         if c != h or d != h:
             bad += 1
             if bad < 20:
@@ -390,11 +413,17 @@ def hyp_text(job: dict) -> dict:
     col = Collector()
     printable = "".join(chr(c) for c in range(32, 127))
     inner = "".join(chr(c) for c in range(33, 127))
+    words = st.text(alphabet=inner, min_size=1, max_size=6)
+    blanks = st.sampled_from((" ", " ", "  ", "   ", "      "))
     text = st.one_of(
         st.just(""),
         st.text(alphabet=inner, min_size=1, max_size=1),
         st.builds(lambda a, m, z: a + m + z, st.text(inner, min_size=1, max_size=1), st.text(printable, max_size=18),
                   st.text(inner, min_size=1, max_size=1)),
+        # words separated by runs of blanks (inner padding is data: 'Bed  2' is not 'Bed 2'), at most 20 characters
+        st.lists(st.tuples(words, blanks), min_size=1, max_size=5).map(lambda ps: "".join(w + b for w, b in ps).rstrip(" ")[:20].rstrip(" ")),
+        # space-heavy / boundary alphabet
+        st.builds(lambda a, m, z: a + m + z, st.sampled_from("!~aZ0"), st.text(" ~!a", max_size=10), st.sampled_from("!~aZ0")),
     )
 
     def body(s: str) -> None:
@@ -411,6 +440,14 @@ def hyp_text(job: dict) -> dict:
         if h != "".join(f"{ord(c):02X}" for c in s) or hex_from_str(back) != h:
             _v(col, "reencode-hex", "hex_from_str", {"text": s, "hex": h}, "hex differs")
 
+    if job.get("shard", 0) == 0:
+        # exhaustive: every string of length <= 6 over {blank, '!', '~', 'a'} that neither starts nor ends with a blank
+        import itertools
+
+        for n_ in range(1, 7):
+            for tup in itertools.product(" !~a", repeat=n_):
+                if tup[0] != " " and tup[-1] != " ":
+                    body("".join(tup))
     hyp_explore(text, body, job["n"], job["seed"])
     return col.dump()
 
